@@ -453,6 +453,48 @@ def _tdms_case(args):
     return out, ncmp
 
 
+def _collision_case(args):
+    """The input is never modified -- also when the output path names the
+    input itself (in whatever spelling): the task may refuse, the input
+    stays."""
+    task, how, seed, scratch = args
+    from dclab import cli
+    d = scratch / f"c08_col_{task}_{how}_{os.getpid()}"
+    if d.exists():
+        shutil.rmtree(d)
+    (d / "sub").mkdir(parents=True)
+    out = []
+    case = {"kind": "collision", "task": task, "how": how, "seed": seed}
+    where = f"dclab.cli.task_{task}:{task}"
+    here = os.getcwd()
+    try:
+        src = build_file(d / "in.rtdc", 1, seed, d)
+        before = sha(src)
+        given = {"same": src, "stem": src.with_suffix(""),
+                 "dotdot": d / "sub" / ".." / src.name,
+                 "relative": src.name,
+                 "stem-dotdot": d / "sub" / ".." / src.stem}[how]
+        if how == "relative":
+            os.chdir(d)
+        try:
+            getattr(cli, task)(path_in=src, path_out=given)
+            status = "returned normally"
+        except BaseException as e:
+            status = f"{type(e).__name__}: {str(e)[:100]}"
+        finally:
+            os.chdir(here)
+        if not src.exists() or sha(src) != before:
+            out.append(violation(
+                where, "input-modified", case,
+                f"{task} with output path '{given}' ({how}): the input is "
+                f"{'gone' if not src.exists() else 'changed'} ({status})",
+                {"task": task, "collision": True}))
+    finally:
+        os.chdir(here)
+        shutil.rmtree(d, ignore_errors=True)
+    return out, 1
+
+
 def run(ctx):
     scratch = ctx.scratch
     variants = range(0, 11, 1)
@@ -484,13 +526,18 @@ def run(ctx):
     viols = []
     nontriv = 0
     compared = 0
-    for vs, nc in par.pmap(_task_case, items) + par.pmap(_tdms_case,
-                                                          titems):
+    citems = [(t, how, ctx.seed, scratch)
+              for t in ("compress", "repack", "condense")
+              for how in ("same", "stem", "dotdot", "relative",
+                          "stem-dotdot")]
+    for vs, nc in par.pmap(_task_case, items) + par.pmap(
+            _tdms_case, titems) + par.pmap(_collision_case, citems):
         viols.extend(vs)
         nontriv += nc > 0
         compared += nc
     ncells = len(LAYOUTS) * 5 + 4 + 4
-    cov = {"evaluations": len(items) + len(titems),
+    cov = {"evaluations": len(items) + len(titems) + len(citems),
+           "collision_cases": len(citems),
            "distinct_nontrivial": nontriv,
            "datasets_compared": compared,
            "layout_kind_cells_per_file": ncells,
@@ -516,6 +563,9 @@ def run(ctx):
 
 
 def replay(case, ctx):
+    if case["kind"] == "collision":
+        return _collision_case((case["task"], case["how"], case["seed"],
+                                ctx.scratch))[0]
     if case["kind"] == "tdms":
         return _tdms_case((case["name"], case["compute"], ctx.scratch))[0]
     return _task_case((case["task"], case["opts"], case["variant"],
